@@ -262,7 +262,18 @@ impl Scenario for S1 {
         let mut first: Option<(Kind, Vec<u8>, Vec<u8>)> = None;
         for _ in 0..ntasks {
             if share && first.is_some() {
-                let (k, key, nonce) = first.clone().unwrap();
+                // the same stream, or a closely related one: same key with another nonce, same nonce with another key,
+                // a difference in the very last byte only (what a cache keyed too coarsely would confuse)
+                let (k, mut key, mut nonce) = first.clone().unwrap();
+                match sw.below(5) {
+                    0 | 1 => {}
+                    2 => {
+                        let n = nonce.len();
+                        nonce[n - 1] ^= 1;
+                    }
+                    3 => nonce[0] ^= 0x80,
+                    _ => key[31] ^= 1,
+                }
                 tasks.push(task_json(k, &key, &nonce, st.place.below(16)));
                 continue;
             }
